@@ -172,8 +172,13 @@ func (fr *frame) pos(p token.Pos) string {
 	return fmt.Sprintf("%s:%d", shortFile(ps.Filename), ps.Line)
 }
 
+// RepoRoot is the directory of the tree under analysis (/repo, or a scratch
+// copy given by VERIF_REPO): positions in labels are relative to it, so that a
+// label reads the same wherever the tree lives.
+var RepoRoot = "/repo"
+
 func shortFile(f string) string {
-	f = strings.TrimPrefix(f, "/repo/")
+	f = strings.TrimPrefix(f, strings.TrimSuffix(RepoRoot, "/")+"/")
 	if i := strings.Index(f, "/src/"); i >= 0 && strings.Contains(f, "golang.org/toolchain") {
 		f = "GOROOT" + f[i+4:]
 	}
